@@ -443,6 +443,8 @@ namespace
     Valuation val;
     std::map<std::string, E> inst_fields; // instance.field -> value
     std::map<std::string, std::set<std::string>> domains_after_read;
+    std::vector<std::string> json_mismatch; // core::to_json() against the API
+    long json_compared = 0;
   };
 
   void collect(ratio::solver &s, const Problem &p, Outcome &out, bool after_solve)
@@ -520,6 +522,57 @@ namespace
       }
     }
     for (auto &ov : p.objvars) out.val.obj[ov.name] = domain_of(ov.name);
+    // the solution as the JSON of core::to_json() (what `oRatio <files> <out.json>` writes) against the API values
+    {
+      smt::json j = s.to_json();
+      auto jq = [](smt::json &r) { return Q(static_cast<smt::long_val &>(*r->get("num")).get(), static_cast<smt::long_val &>(*r->get("den")).get()); };
+      auto jE = [&](smt::json &v) { E e(jq(v)); if (v->has("inf")) e.e = jq(v->get("inf")); return e; };
+      auto cmp_exprs = [&](smt::json &arr_j, ratio::env &en, const std::string &where) {
+        const smt::array_val &arr = static_cast<const smt::array_val &>(*arr_j);
+        for (size_t i = 0; i < arr.size(); ++i)
+        {
+          smt::json x = arr.get(i);
+          std::string name = static_cast<smt::string_val &>(*x->get("name")).get();
+          smt::json v = x->get("value");
+          ratio::item *ep = nullptr;
+          try { ratio::expr e0 = en.get(name); ep = &*e0; } catch (const std::exception &) { continue; }
+          ratio::item &e_ref = *ep; // kept alive by the environment that holds it
+          ratio::item *e = &e_ref;
+          if (ratio::arith_item *ai = dynamic_cast<ratio::arith_item *>(e))
+          {
+            if (!v->has("num")) { out.json_mismatch.push_back(where + name + ": the JSON has no numeric value"); continue; }
+            E api = toE(s.arith_value(ratio::arith_expr(ai))), js = jE(v);
+            ++out.json_compared;
+            if (qx::cmp(api, js) != 0) out.json_mismatch.push_back(where + name + " is " + qx::str(js) + " in the JSON of the solution and " + qx::str(api) + " through arith_value");
+            if (v->has("lb") && qx::cmp(jE(v->get("lb")), js) > 0) out.json_mismatch.push_back(where + name + ": the JSON value " + qx::str(js) + " is below its own lower bound " + qx::str(jE(v->get("lb"))));
+            if (v->has("ub") && qx::cmp(jE(v->get("ub")), js) < 0) out.json_mismatch.push_back(where + name + ": the JSON value " + qx::str(js) + " is above its own upper bound " + qx::str(jE(v->get("ub"))));
+          }
+          else if (ratio::bool_item *bi = dynamic_cast<ratio::bool_item *>(e))
+          {
+            if (!v->has("val")) continue;
+            std::string js = static_cast<smt::string_val &>(*v->get("val")).get();
+            smt::lbool api = s.get_sat_core().value(bi->l);
+            ++out.json_compared;
+            if (js != (api == smt::True ? "True" : api == smt::False ? "False" : "Undefined")) out.json_mismatch.push_back(where + name + " is " + js + " in the JSON of the solution but not through the API");
+          }
+        }
+      };
+      if (j->has("exprs")) cmp_exprs(j->get("exprs"), s, "");
+      if (j->has("atoms"))
+      {
+        const smt::array_val &arr = static_cast<const smt::array_val &>(*j->get("atoms"));
+        for (size_t i = 0; i < arr.size(); ++i)
+        {
+          smt::json a = arr.get(i);
+          ratio::atom *at = reinterpret_cast<ratio::atom *>((uintptr_t) static_cast<smt::long_val &>(*a->get("id")).get());
+          std::string st = static_cast<smt::string_val &>(*a->get("state")).get();
+          smt::lbool sv = s.get_sat_core().value(at->get_sigma());
+          ++out.json_compared;
+          if (st != (sv == smt::True ? "Active" : sv == smt::False ? "Unified" : "Inactive")) out.json_mismatch.push_back("an atom is " + st + " in the JSON of the solution but not through the API");
+          if (a->has("pars")) cmp_exprs(a->get("pars"), *at, "atom parameter ");
+        }
+      }
+    }
   }
 
   std::function<void(ratio::solver &)> g_after_solve; // reads more of the solution while the solver is alive (timelines layer)
@@ -846,7 +899,7 @@ namespace
     {
       gen_timelines(g, tl);
       g_plan = Plan();
-      g_after_solve = [&tl](ratio::solver &s) { read_plan(s, tl, g_plan); };
+      g_after_solve = [&tl](ratio::solver &s) { read_plan(s, tl, g_plan); read_extracted(s, tl, g_plan); };
 #ifdef WITH_EXECUTOR
       if (P == "C19")
       {
@@ -952,6 +1005,8 @@ namespace
           c16.push_back("boolean " + kv.first + " is defined by a constant expression that is " + (kv.second == T ? "true" : "false") + " but the solution reports " +
                         (it->second == T ? "true" : it->second == F ? "false" : "undefined"));
       }
+      for (auto &m : out.json_mismatch) c01.push_back(m);
+      r.counters["json_values_compared"] += out.json_compared;
       check_objects(p, out, c17);
       if (layer == "L3") check_timelines(p, tl, out, c04, c05, c06, c01, r);
       if (layer == "L2p") check_shared(sh, out, c01, c03, r);
